@@ -825,6 +825,63 @@ def jump_grid():
     return out
 
 
+def tiny_grid():
+    """bodies that consist of a docstring, a lone constant or pass only -- at the top level, in nested functions and in
+    methods of local classes; the converted function must still load, return None and keep its docstring"""
+    bodies = ['"""only a docstring"""', '...', '42', 'pass', '"""doc"""\npass', "b'bytes'", 'None']
+    out = []
+    for b in bodies:
+        ind = '\n'.join('    ' + l for l in b.split('\n'))
+        out.append('def f(a, b, c):\n%s\n' % ind)
+        ind2 = '\n'.join('        ' + l for l in b.split('\n'))
+        out.append('def f(a, b, c):\n    def g(x):\n%s\n    if D(1):\n        return T(2, g(a), g.__doc__)\n    return T(3, g(b))\n' % ind2)
+    return out
+
+
+def closure_grid():
+    """local functions whose free variable is assigned by a later control statement and that are called only after it,
+    reached by every route a function object can take: its own name, an alias, a container, a sibling closure, an argument
+    of a helper, a returned closure, a default argument, a bound keyword; deterministically, so that an analysis that keeps
+    closure variables alive only under some syntactic condition (the function's name is still used, the call is direct)
+    is seen on every run.  The variable is read after the statement only through the closure."""
+    out = []
+    routes = {
+        'direct': ([], 'g()'),
+        'alias': (['k = g'], 'k()'),
+        'container': (['fs = [g]'], 'fs[-1]()'),
+        'dict': (['fs = {1: g}'], 'fs[1]()'),
+        'sibling': (['def h():', '    return g()'], 'h()'),
+        'twohop': (['def h():', '    return g()', 'def m():', '    return h()'], 'm()'),
+        'sibling-alias': (['def h():', '    return g()', 'k = h'], 'k()'),
+        'argument': (['def run(cb):', '    return cb()', 'k = (g,)'], 'run(k[0])'),
+        'default': (['def h(cb=g):', '    return cb()'], 'h()'),
+        'lambda-wrap': (['k = lambda: g()'], 'k()'),
+        'tuple-unpack': (['k, j = g, 1'], 'k()'),
+    }
+    ctrls = {
+        'if': ['if D({a}):', '    x = T({b}, b{r})'],
+        'ifelse': ['if D({a}):', '    x = T({b}, b{r})', 'else:', '    c = T({c}, c)'],
+        'while': ['while D({a}):', '    x = T({b}, b{r})'],
+        'for': ['for i1 in L({a}):', '    x = T({b}, b{r})'],
+        'nested': ['for i1 in L({a}):', '    if D({c}):', '        x = T({b}, b{r})'],
+    }
+    for rname, (pre, call) in sorted(routes.items()):
+        for cname, tpl in sorted(ctrls.items()):
+            for read_inside in (False, True):
+                k = [10]
+
+                def K():
+                    k[0] += 1
+                    return k[0]
+                L = ['def f(a, b, c):', '    x = T(%d, a)' % K(), '    def g():', '        return T(%d, x)' % K()]
+                L += ['    ' + t for t in pre]
+                a_, b_, c_ = K(), K(), K()
+                L += ['    ' + t.format(a=a_, b=b_, c=c_, r=', x' if read_inside else '') for t in tpl]
+                L += ['    return T(%d, %s)' % (K(), call)]
+                out.append('\n'.join(L) + '\n')
+    return out
+
+
 def search_on(programs, rnd):
     """targeted search after a broken correspondence: the programs on which model and pass disagree are run
     original vs converted under many decision vectors"""
@@ -901,6 +958,12 @@ def check(run):
     for g in jump_grid():
         srcs.append(g)
         kinds.append(('jump-grid', False))
+    for g in closure_grid():
+        srcs.append(g)
+        kinds.append(('closure-grid', False))
+    for g in tiny_grid():
+        srcs.append(g)
+        kinds.append(('tiny-grid', False))
     # corpus first
     cdir = os.path.join(vlib.ROOT, 'corpus', 'C01')
     corpus = []
